@@ -17,7 +17,8 @@ DECIDES = ('On USBInTransferManager (states by role: wait-for-data = initial, ac
            'accepted only while the write buffer is neither full nor ended; the sent buffer\'s fill count is cleared only under ACK '
            '(or discard); (e) a staged packet is sent only for an IN token of this endpoint after the inter-packet gap: a zero-'
            'length packet iff the fill count is zero, the follow-up ZLP iff fill == max & stream ended & generate_zlps; the send '
-           'state walks the buffer with first/last from position and fill count. ')
+           'state walks the buffer with first/last from position and fill count; with the ZLP owed, the acknowledged ack-wait state '
+           'returns to the staged state without switching buffers or clearing stream-ended, whatever else holds (exact outcome). ')
 NOT_DECIDED = 'equality of the delivered byte stream with the input stream over all histories.'
 ACK = 'self.handshakes_in.ack'
 NT = 'self.tokenizer.new_token'
